@@ -60,6 +60,7 @@ func Intervals(g graph.Directed, eid int64) IntervalGraph {
 	worklist.Enqueue(g.Node(eid))
 	inInterval := make(map[int64]graph.Node)
 	node2interval := make(map[int64]*Interval)
+	queued := make(map[int64]bool)
 	id := int64(0)
 
 	for worklist.Len() != 0 {
@@ -86,9 +87,9 @@ func Intervals(g graph.Directed, eid int64) IntervalGraph {
 				}
 			}
 
-			if 0 < x && x < predsLength {
+			if 0 < x && x < predsLength && !queued[node.ID()] {
+				queued[node.ID()] = true
 				worklist.Enqueue(node)
-				break
 			}
 		}
 	}
